@@ -8,8 +8,8 @@ pub trait Matcher {
     type Error: std::fmt::Display;
 
     spec fn m_find_at(&self, h: Seq<u8>, at: int) -> Option<(int, int)>;
-    /// the pattern matches somewhere in h  (== m_find_at(h, 0) is Some, see m_axioms)
-    spec fn m_is_match(&self, h: Seq<u8>) -> bool;
+    /// "the pattern matches somewhere in h" as a predicate (== m_find_at(h, 0) is Some, see m_axioms)
+    spec fn m_pred(&self) -> spec_fn(Seq<u8>) -> bool;
     /// the matcher promises that no match ever contains byte b
     spec fn m_excludes(&self, b: u8) -> bool;
     spec fn m_lt(&self) -> Option<LineTerminator>;
@@ -22,8 +22,8 @@ pub trait Matcher {
         ensures
             forall|h: Seq<u8>, at: int| #![trigger self.m_find_at(h, at)]
                 self.m_find_at(h, at) matches Some((s, e)) ==> at <= s <= e <= h.len(),
-            forall|h: Seq<u8>| #![trigger self.m_is_match(h)]
-                self.m_is_match(h) == (self.m_find_at(h, 0) is Some),
+            forall|h: Seq<u8>| #![trigger (self.m_pred())(h)]
+                (self.m_pred())(h) == (self.m_find_at(h, 0) is Some),
             self.m_lt() matches Some(lt) ==> self.m_excludes(lt.byte_view()),
             self.m_nmb() matches Some(set) ==> forall|b: u8| set.has(b) ==> self.m_excludes(b),
     ;
@@ -46,11 +46,11 @@ pub trait Matcher {
     ;
 
     fn is_match(&self, haystack: &[u8]) -> (r: Result<bool, Self::Error>)
-        ensures r matches Ok(b) ==> b == self.m_is_match(haystack@),
+        ensures r matches Ok(b) ==> b == (self.m_pred())(haystack@),
     ;
 
     fn shortest_match(&self, haystack: &[u8]) -> (r: Result<Option<usize>, Self::Error>)
-        ensures r matches Ok(o) ==> (o is Some) == self.m_is_match(haystack@),
+        ensures r matches Ok(o) ==> (o is Some) == (self.m_pred())(haystack@),
     ;
 
     fn non_matching_bytes(&self) -> (r: Option<&ByteSet>)
@@ -69,7 +69,7 @@ pub trait Matcher {
     fn find_candidate_line(&self, haystack: &[u8]) -> (r: Result<Option<LineMatchKind>, Self::Error>)
         ensures
             r matches Ok(o) ==> forall|lt: LineTerminator| #![trigger self.m_excludes(lt.byte_view())]
-                self.m_excludes(lt.byte_view()) ==> candidate_ok(|x: Seq<u8>| self.m_is_match(x), haystack@, lt, o),
+                self.m_excludes(lt.byte_view()) ==> candidate_ok(self.m_pred(), haystack@, lt, o),
     ;
 }
 
@@ -90,7 +90,8 @@ pub open spec fn candidate_ok(p: spec_fn(Seq<u8>) -> bool, h: Seq<u8>, lt: LineT
     let t = lt.byte_view();
     match o {
         None => no_match_in(p, h, lt, 0, h.len() as int),
-        Some(LineMatchKind::Candidate(i)) => i <= h.len()
+        // "a position in a line": the candidate's line is not the empty range after a final terminator
+        Some(LineMatchKind::Candidate(i)) => i <= h.len() && (i < h.len() || (i > 0 && h[i - 1] != t))
             && no_match_in(p, h, lt, 0, line_start_of(h, t, i as int)),
         Some(LineMatchKind::Confirmed(i)) => i <= h.len()
             && no_match_in(p, h, lt, 0, line_start_of(h, t, i as int))
@@ -106,7 +107,7 @@ impl<'a, M: Matcher> Matcher for &'a M {
     type Error = M::Error;
 
     open spec fn m_find_at(&self, h: Seq<u8>, at: int) -> Option<(int, int)> { (**self).m_find_at(h, at) }
-    open spec fn m_is_match(&self, h: Seq<u8>) -> bool { (**self).m_is_match(h) }
+    open spec fn m_pred(&self) -> spec_fn(Seq<u8>) -> bool { (**self).m_pred() }
     open spec fn m_excludes(&self, b: u8) -> bool { (**self).m_excludes(b) }
     open spec fn m_lt(&self) -> Option<LineTerminator> { (**self).m_lt() }
     open spec fn m_nmb(&self) -> Option<ByteSet> { (**self).m_nmb() }
